@@ -69,7 +69,7 @@ struct DaemonSim {
     in_exit_window: bool,
     drain_begun_at: Option<std::time::Instant>,
     loop_timers: Vec<u64>,
-    loop_reruns: Vec<(u64, &'static str, String)>,
+    loop_reruns: Vec<(u64, &'static str, String, u64)>,
     drained_at: Option<std::time::Instant>,
     dead_at: Option<std::time::Instant>,
 }
@@ -286,15 +286,15 @@ impl World {
         (g.daemons[d].drained_at, g.daemons[d].dead_at)
     }
 
-    /// What daemon `d` held for later when it last parked: (timers, sorted; queued re-runs as (time, kind, key)).
-    pub fn loop_state(&self, d: usize) -> (Vec<u64>, Vec<(u64, String, String)>) {
+    /// What daemon `d` held for later when it last parked: (timers, sorted; queued re-runs as (time, kind, key, number)).
+    pub fn loop_state(&self, d: usize) -> (Vec<u64>, Vec<(u64, String, String, u64)>) {
         let g = self.lock();
         (
             g.daemons[d].loop_timers.clone(),
             g.daemons[d]
                 .loop_reruns
                 .iter()
-                .map(|(t, k, key)| (*t, k.to_string(), key.clone()))
+                .map(|(t, k, key, n)| (*t, k.to_string(), key.clone(), *n))
                 .collect(),
         )
     }
@@ -448,7 +448,7 @@ pub(crate) enum Gate {
 
 /// Blocks at the loop gate until the harness grants an iteration.
 /// Called by the run loop right before it parks: its timer heap and queued re-runs.
-pub(crate) fn publish_loop(mut timers: Vec<u64>, reruns: Vec<(u64, &'static str, String)>) {
+pub(crate) fn publish_loop(mut timers: Vec<u64>, reruns: Vec<(u64, &'static str, String, u64)>) {
     if let Some(Binding {
         world,
         daemon: Some(d),
